@@ -5,12 +5,12 @@ use crate::engine::{hash64, CaseOutcome, Check, Tier};
 use serde_json::{json, Value};
 use std::sync::OnceLock;
 
-pub const N_PREFIX: usize = 17;
+pub const N_PREFIX: usize = 19;
 pub const N_KINDS: usize = 16;
 
 const PREFIX_NAMES: [&str; N_PREFIX] = [
     "blank", "line-comment", "block-comment-1", "block-comment-3", "comment-then-decl", "comment2-then-decl", "spliced-decl", "define", "if0-block", "ifdef-else-block", "include-h", "include-h-nonl", "include-asm", "define-and-use", "decl-with-string", "crlf-decl",
-    "block-comment-url",
+    "block-comment-url", "include-asm-nonl", "decl-with-non-ascii",
 ];
 
 const KIND_NAMES: [&str; N_KINDS] = [
@@ -107,6 +107,19 @@ fn emit_prefix(k: usize, seq: usize, tag: &str, t: &mut Txt, fname: &str, files:
             t.push(&format!("char {};\r\n", id));
         }
         16 => t.push("/* see http://example.org/x */\n"),
+        17 => {
+            // assembler file whose last line has no end-of-line
+            let an = format!("c06b_{}.asm", id);
+            files.push((an.clone(), format!("; data\nlbm{}\n\t.byte 2", id)));
+            t.push(&format!("#include \"{}\"\n", an));
+            markers.push((format!("{}after", id), fname.to_string(), vec![t.line]));
+            t.push(&format!("char {}after;\n", id));
+        }
+        18 => {
+            // multi-byte characters in the preprocessed text: offsets are bytes, not characters
+            markers.push((id.clone(), fname.to_string(), vec![t.line]));
+            t.push(&format!("const char {}[40] = {{{}}};\n", id, vec!["'é'"; 40].join(", ")));
+        }
         _ => unreachable!(),
     }
 }
@@ -399,7 +412,7 @@ impl Check for C06 {
         "exploration"
     }
     fn rule(&self) -> String {
-        "Sources are assembled from (i) every sequence of <= 2 (quick) / <= 3 (thorough) line-shifting prefix constructs out of 17 (blank line, // comment, 1- and 3-line block comment, block comment with a URL, block comment ending mid-line before a declaration, declaration spliced over two lines, #define, #if 0 block, #ifdef/#else block, #include of a C header with and without final newline, #include of an assembler file, a declaration using a macro, a declaration with a string literal, a CR-LF line), (ii) one offending line out of 16 error kinds (preprocessor: #error, unknown directive, unterminated string, missing include, #if on undefined name; parser: bad declaration, bad statement; semantic: unknown identifier, redefinition, constant division by zero, short pointer; code generation: subscript on scalar, too many parameters, break outside loop, csleep(11), deref of a non-pointer), (iii) its placement: main file, inside an included file that itself has the prefixes, on a spliced logical line, as last line without newline. The generator knows the physical line and file of the offending token; the returned Error::{Syntax,Compiler} must carry that file, one of the admissible lines and the right included_in. Side oracle on the same prefixes without defect: mapped_lines has one entry per preprocessed line and every marker declaration is mapped to the physical line it is written on. Non-trivial = a located error was produced; distinct = distinct (prefix sequence, kind, placement).".into()
+        "Sources are assembled from (i) every sequence of <= 2 (quick) / <= 3 (thorough) line-shifting prefix constructs out of 19 (blank line, // comment, 1- and 3-line block comment, block comment with a URL, block comment ending mid-line before a declaration, declaration spliced over two lines, #define, #if 0 block, #ifdef/#else block, #include of a C header with and without final newline, #include of an assembler file, a declaration using a macro, a declaration with a string literal, a CR-LF line, #include of an assembler file without final newline, a declaration full of non-ASCII character constants), (ii) one offending line out of 16 error kinds (preprocessor: #error, unknown directive, unterminated string, missing include, #if on undefined name; parser: bad declaration, bad statement; semantic: unknown identifier, redefinition, constant division by zero, short pointer; code generation: subscript on scalar, too many parameters, break outside loop, csleep(11), deref of a non-pointer), (iii) its placement: main file, inside an included file that itself has the prefixes, on a spliced logical line, as last line without newline. The generator knows the physical line and file of the offending token; the returned Error::{Syntax,Compiler} must carry that file, one of the admissible lines and the right included_in. Side oracle on the same prefixes without defect: mapped_lines has one entry per preprocessed line and every marker declaration is mapped to the physical line it is written on. Non-trivial = a located error was produced; distinct = distinct (prefix sequence, kind, placement).".into()
     }
     fn assumptions(&self) -> Vec<String> {
         vec!["for parser errors the line after the offending line is also admissible (pest reports the furthest position reached)".into(), "for a spliced statement either physical line is admissible".into()]
